@@ -8,6 +8,7 @@ package container
 
 import (
 	"sort"
+	"time"
 
 	containerEvent "github.com/nspcc-dev/neofs-node/pkg/morph/event/container"
 	cid "github.com/nspcc-dev/neofs-sdk-go/container/id"
@@ -52,4 +53,13 @@ func VerifSysAttrs() (string, string, []string) {
 	}
 	sort.Strings(l)
 	return sysAttrPrefix, sysAttrChainMeta, l
+}
+
+// VerifDrain waits until the worker pool (size 1 in the harness) has finished the submitted task.
+func (cp *Processor) VerifDrain() {
+	done := make(chan struct{})
+	for cp.pool.Submit(func() { close(done) }) != nil {
+		time.Sleep(20 * time.Microsecond)
+	}
+	<-done
 }
